@@ -2,6 +2,7 @@ package main
 
 import (
 	"fmt"
+	"go/token"
 	"go/types"
 	"sort"
 	"strings"
@@ -174,6 +175,11 @@ func (r *Run) AllWired(pkg, typ, all, why string) {
 		return
 	}
 	n := 0
+	type chk struct {
+		name, full string
+		pos        token.Pos
+	}
+	var checks []chk
 	for i := 0; i < nt.NumMethods(); i++ {
 		m := nt.Method(i)
 		if m.Name() == all {
@@ -184,24 +190,45 @@ func (r *Run) AllWired(pkg, typ, all, why string) {
 			continue
 		}
 		n++
-		mName := fmt.Sprintf("%s.(*%s).%s", pkg, typ, m.Name())
-		sites := r.P.FindCalls(allFn, mName, false)
-		file, line := r.P.Pos(m.Pos())
-		if len(sites) == 0 {
-			r.viol("K5-checklist", allName, "wires "+m.Name(), fmt.Sprintf("check method %s exists but %s does not call it", mName, allName), why, file, line)
-			continue
-		}
-		okp := false
-		for _, cs := range sites {
-			if r.failurePropagates(allFn, cs, r.P.Fn(mName)) {
-				okp = true
+		checks = append(checks, chk{m.Name(), fmt.Sprintf("%s.(*%s).%s", pkg, typ, m.Name()), m.Pos()})
+	}
+	// wired: called with its failure propagating from `all`, or from a check that is itself wired
+	// (a check split into a helper of the same type stays wired through its caller)
+	wiredAt := map[string]*CallSite{}
+	ignoredAt := map[string]*CallSite{}
+	callers := []*ssa.Function{allFn}
+	seen := map[*ssa.Function]bool{allFn: true}
+	for len(callers) > 0 {
+		from := callers[0]
+		callers = callers[1:]
+		for _, c := range checks {
+			if wiredAt[c.full] != nil {
+				continue
+			}
+			for _, cs := range r.P.FindCalls(from, c.full, false) {
+				if r.failurePropagates(from, cs, r.P.Fn(c.full)) {
+					wiredAt[c.full] = cs
+					if f := r.P.Fn(c.full); f != nil && !seen[f] {
+						seen[f] = true
+						callers = append(callers, f)
+					}
+					break
+				}
+				ignoredAt[c.full] = cs
 			}
 		}
-		if !okp {
-			r.viol("K5-checklist", allName, "wires "+m.Name(), fmt.Sprintf("%s calls %s but ignores its error", allName, mName), why, sites[0].File, sites[0].Line)
+	}
+	for _, c := range checks {
+		file, line := r.P.Pos(c.pos)
+		if cs := wiredAt[c.full]; cs != nil {
+			r.pass("K5-checklist", allName, "wires "+c.name, "called and failure propagates", why, cs.File, cs.Line)
 			continue
 		}
-		r.pass("K5-checklist", allName, "wires "+m.Name(), "called and failure propagates", why, sites[0].File, sites[0].Line)
+		if cs := ignoredAt[c.full]; cs != nil {
+			r.viol("K5-checklist", allName, "wires "+c.name, fmt.Sprintf("%s is called at %s:%d but its error is ignored", c.full, cs.File, cs.Line), why, cs.File, cs.Line)
+			continue
+		}
+		r.viol("K5-checklist", allName, "wires "+c.name, fmt.Sprintf("check method %s exists but %s does not call it (directly or through another wired check)", c.full, allName), why, file, line)
 	}
 	if n == 0 {
 		r.viol("vacuous-rule", allName, "checklist", "no check methods found on "+typ, why, "", 0)
@@ -521,9 +548,17 @@ func (r *Run) Returns(fnName string, want []string, why string) {
 		return
 	}
 	file, line := r.P.FnPos(fn)
+	fi := r.P.Info(fn)
 	got := map[string]bool{}
+	onlyFail := map[string]bool{} // result forms that occur only at provably failing exits (non-nil error)
 	for _, e := range r.P.Effects(fn) {
 		if e.Kind == "return" {
+			fail := fi.failKind == "error" && fi.failExit[e.Instr.Block()]
+			if !got[e.Canon] {
+				onlyFail[e.Canon] = fail
+			} else if !fail {
+				onlyFail[e.Canon] = false
+			}
 			got[e.Canon] = true
 		}
 	}
@@ -531,7 +566,7 @@ func (r *Run) Returns(fnName string, want []string, why string) {
 	for _, w := range want {
 		ws["return "+r.X(w)] = true
 	}
-	var missing, extra []string
+	var missing, extra, tolerated []string
 	for w := range ws {
 		if !got[w] {
 			missing = append(missing, w)
@@ -539,17 +574,33 @@ func (r *Run) Returns(fnName string, want []string, why string) {
 	}
 	for g := range got {
 		if !ws[g] {
+			if onlyFail[g] {
+				// a new way to *refuse* (error provably non-nil): more rejection never breaks a
+				// row that pins what success returns
+				tolerated = append(tolerated, g)
+				continue
+			}
+			if g == "return nil" && r.nilAfterCheckedTail(fn, ws) {
+				// `return f()` rewritten as `if err := f(); err != nil { return err }; return nil`
+				tolerated = append(tolerated, g)
+				continue
+			}
 			extra = append(extra, g)
 		}
 	}
 	sort.Strings(missing)
 	sort.Strings(extra)
+	sort.Strings(tolerated)
 	construct := "result forms"
 	if len(missing) > 0 || len(extra) > 0 {
 		r.viol("K4-returns", fnName, construct, fmt.Sprintf("%s: result expressions changed; missing: %v; new: %v", fnName, missing, extra), why, file, line)
 		return
 	}
-	r.pass("K4-returns", fnName, construct, fmt.Sprintf("%d result forms", len(ws)), why, file, line)
+	detail := fmt.Sprintf("%d result forms", len(ws))
+	if len(tolerated) > 0 {
+		detail += fmt.Sprintf("; %d additional failure-only return(s) accepted: %v", len(tolerated), tolerated)
+	}
+	r.pass("K4-returns", fnName, construct, detail, why, file, line)
 }
 
 // Branch: fn has a conditional branch with this canonical condition (either polarity).
@@ -1489,4 +1540,90 @@ func (r *Run) UnreachableWhen(fnName, prefix string, conds []string, why string)
 		}
 	}
 	r.pass("K2-unreachable-when", fnName, construct, "", why, file, line)
+}
+
+// nilAfterCheckedTail: fn has a single error result and every `return nil` of fn is reached only
+// through the accepting edge of a guard `reject-if ne(nil,X)` where `return X` is a wanted form —
+// the expanded spelling of `return X`.
+func (r *Run) nilAfterCheckedTail(fn *ssa.Function, wanted map[string]bool) bool {
+	if fn.Signature.Results().Len() != 1 || errResultIndex(fn.Signature) != 0 {
+		return false
+	}
+	fi := r.P.Info(fn)
+	found := false
+	for _, b := range fn.Blocks {
+		ret, ok := lastInstr(b).(*ssa.Return)
+		if !ok || b == fn.Recover {
+			continue
+		}
+		c, isC := retOperand(ret, 0).(*ssa.Const)
+		if !isC || c.Value != nil {
+			continue
+		}
+		covered := false
+		for _, g := range fi.guards {
+			if g.Reject == "" || g.RejCond.Op != "ne" {
+				continue
+			}
+			var x *Path
+			switch {
+			case g.RejCond.L != nil && g.RejCond.L.String() == "nil":
+				x = g.RejCond.R
+			case g.RejCond.R != nil && g.RejCond.R.String() == "nil":
+				x = g.RejCond.L
+			}
+			if x == nil || !wanted["return "+x.String()] {
+				continue
+			}
+			if edgeDominates(g.Block, g.Accept(), b) {
+				covered = true
+			}
+		}
+		if !covered {
+			return false
+		}
+		found = true
+	}
+	return found
+}
+
+// ReturnOnlyUnder: every return of fn with this canonical form is reached only through the edge on
+// which cond holds (the value is handed out only after the validating comparison succeeded).
+func (r *Run) ReturnOnlyUnder(fnName, ret, cond, why string) {
+	fn := r.fn(fnName)
+	if fn == nil {
+		return
+	}
+	ret, cond = "return "+r.X(ret), r.X(cond)
+	file, line := r.P.FnPos(fn)
+	construct := ret + " only when " + cond
+	var g0 *Guard
+	var edge *ssa.BasicBlock
+	for _, g := range r.P.Info(fn).guards {
+		if g.Cond.String() == cond {
+			g0, edge = g, g.Block.Succs[0]
+		} else if g.Cond.Negate().String() == cond {
+			g0, edge = g, g.Block.Succs[1]
+		}
+	}
+	if g0 == nil {
+		r.viol("K2-return-only-under", fnName, construct, fnName+" no longer branches on "+cond, why, file, line)
+		return
+	}
+	n := 0
+	for _, e := range r.P.Effects(fn) {
+		if e.Kind != "return" || e.Canon != ret {
+			continue
+		}
+		n++
+		if !edgeDominates(g0.Block, edge, e.Instr.Block()) {
+			r.viol("K2-return-only-under", fnName, construct, fmt.Sprintf("%s at %s:%d is reachable on a path where %s was not established", ret, e.File, e.Line, cond), why, e.File, e.Line)
+			return
+		}
+	}
+	if n == 0 {
+		r.viol("K2-return-only-under", fnName, construct, fnName+" no longer has "+ret, why, file, line)
+		return
+	}
+	r.pass("K2-return-only-under", fnName, construct, fmt.Sprintf("%d return site(s)", n), why, g0.File, g0.Line)
 }
